@@ -32,18 +32,18 @@ PROPS = {
     'C01': dict(streams=['write', 'dict']),
     'C02': dict(streams=['ticks', 'midix', 'write'], modules=['C02', 'C02Float']),
     'C03': dict(streams=['scale', 'conv']),
-    'C04': dict(streams=['lex', 'parse', 'conv', 'sizes']),
+    'C04': dict(streams=['lex', 'parse', 'conv', 'sizes'], modules=['C04', 'IO']),
     'C05': dict(streams=['threeway', 'conv', 'write']),
     'C06': dict(streams=['midix', 'write']),
     'C07': dict(streams=['ticks', 'write'], modules=['C07', 'C07Float']),
     'C08': dict(streams=['midix', 'write'], modules=['C08', 'C08Bytes']),
-    'C09': dict(streams=['robust', 'conv', 'write', 'dict', 'sizes']),
-    'C10': dict(streams=['conv', 'wconv', 'note', 'scale', 'sizes', 'repeat']),
+    'C09': dict(streams=['robust', 'conv', 'write', 'dict', 'sizes'], modules=['C09', 'IO']),
+    'C10': dict(streams=['conv', 'wconv', 'note', 'scale', 'sizes', 'repeat'], modules=['C10', 'IO']),
     'C11': dict(streams=['variants', 'lex', 'sizes']),
-    'C12': dict(streams=['repeat', 'chain', 'scale'], race=True),
-    'C13': dict(streams=['scale', 'diatonic']),
-    'C14': dict(streams=['chain', 'keyconv']),
-    'C15': dict(streams=['note', 'describe', 'repeat']),
+    'C12': dict(streams=['repeat', 'chain', 'scale'], race=True, modules=['C12', 'IO']),
+    'C13': dict(streams=['scale', 'diatonic', 'conv']),
+    'C14': dict(streams=['chain', 'keyconv'], modules=['C14', 'IO']),
+    'C15': dict(streams=['note', 'describe', 'cdescribe', 'repeat']),
     'C16': dict(streams=['dict', 'note', 'write']),
     'C17': dict(streams=['scale', 'diatonic']),
 }
@@ -153,10 +153,14 @@ def prop_theorems(pid):
     names = []
     for mod in prop_modules(pid):
         path = os.path.join(LEAN, 'Crd', 'Props', mod + '.lean')
+        ns = 'Crd.Props.%s' % pid
         for l in open(path, encoding='utf-8'):
+            m = re.match(r'namespace\s+(\S+)', l)
+            if m:
+                ns = m.group(1)
             m = re.match(r'theorem\s+([^\s:({\[]+)', l)
             if m:
-                names.append('Crd.Props.%s.%s' % (pid, m.group(1)))
+                names.append('%s.%s' % (ns, m.group(1)))
     return names
 
 def audit(pid):
@@ -388,6 +392,10 @@ def check_property(pid, tier, seed):
                         problems.append(dict(kind='leanchecker', detail=(p.stdout + p.stderr).decode(errors='replace')[-600:]))
                     else:
                         extra_cov.setdefault('leanchecker', []).append('Crd.Props.' + m)
+        # an obligation no longer checks: widen the search for a concrete failing input (longer inputs, more repeats)
+        os.environ.pop('CRD_ESCALATE', None)
+        if any(p['kind'] in ('proof', 'model', 'regenerate') for p in problems):
+            os.environ['CRD_ESCALATE'] = '1'
         for h in scan_forbidden():
             problems.append(dict(kind='forbidden-construct', detail=h))
         # correspondence + oracles on real observations
